@@ -207,7 +207,7 @@ GRID_QUICK = {
     "Laplace": [["0", "1"], ["1", "2"], ["-1", "1/2"]],
     "DistExp": [["1"], ["2"], ["1/3"]],
     "Gamma": [["2", "1/2"], ["1", "1"], ["3", "2"], ["1/2", "1"]],
-    "Beta": [["2", "3"], ["1", "1"], ["1/2", "1/2"], ["2", "2", "3"]],
+    "Beta": [["2", "3"], ["1", "1"], ["3", "1"], ["2", "2", "3"]],
     "TruncNormal": [["0", "1", "-1", "1"], ["1", "4", "0", "3"], ["0", "1", "1", "2"], ["2", "1/4", "0", "5"]],
 }
 GRID_MORE = {
@@ -216,7 +216,7 @@ GRID_MORE = {
     "Laplace": [["2", "3"], ["0.5", "0.5"], ["-3", "1/4"]],
     "DistExp": [["5"], ["0.5"], ["7/2"]],
     "Gamma": [["5", "1/3"], ["3/2", "2"], ["0.5", "0.5"]],
-    "Beta": [["5", "1"], ["3", "3", "2"], ["1/2", "2"], ["2", "5", "1/2"]],
+    "Beta": [["5", "1"], ["3", "3", "2"], ["1/2", "2"], ["2", "5", "1/2"], ["1/2", "1/2"]],
     "TruncNormal": [["-1", "2", "-3", "0"], ["0", "1", "-1/2", "3"], ["5", "1", "0", "4"], ["0", "9", "-1", "1"]],
 }
 
